@@ -238,6 +238,15 @@ func (u *Unit) execStmt(st *State, s ast.Stmt) flow {
 	case *ast.EmptyStmt:
 		return flow{normal: []*State{st}}
 	case *ast.ExprStmt:
+		if call, ok := ast.Unparen(x.X).(*ast.CallExpr); ok {
+			if rets, ok := u.inlinePaths(st, call); ok {
+				var outs []*State
+				for _, r := range rets {
+					outs = append(outs, u.alive(r.st).normal...)
+				}
+				return flow{normal: outs}
+			}
+		}
 		u.eval(st, x.X)
 		return u.alive(st)
 	case *ast.AssignStmt:
@@ -467,34 +476,56 @@ func (u *Unit) tailInline(st *State, x *ast.ReturnStmt) bool {
 	if !ok {
 		return false
 	}
-	if tv, ok := u.info().Types[ast.Unparen(call.Fun)]; ok && tv.IsType() {
+	rets, ok := u.inlinePaths(st, call)
+	if !ok {
 		return false
+	}
+	fr := u.topFrame()
+	for _, r := range rets {
+		vals := r.vals
+		for i := range vals {
+			if i < fr.sig.Results().Len() {
+				vals[i] = u.coerce(r.st, vals[i], fr.sig.Results().At(i).Type())
+			}
+		}
+		u.finishReturn(r.st, vals)
+	}
+	return true
+}
+
+// inlinePaths executes an inlinable callee (no contract) and returns its return states unmerged.
+func (u *Unit) inlinePaths(st *State, call *ast.CallExpr) ([]retState, bool) {
+	if u.inlining >= 3 {
+		return nil, false
+	}
+	if tv, ok := u.info().Types[ast.Unparen(call.Fun)]; ok && tv.IsType() {
+		return nil, false
 	}
 	fn := u.calleeFunc(call)
 	if fn == nil || fn.Name() == "verifPoint" {
-		return false
+		return nil, false
 	}
 	key := funcKey(fn)
 	if u.eng.contractFor(key) != nil || u.eng.ioFallback(fn) != nil || u.isDroppedCall(fn) {
-		return false
+		return nil, false
 	}
 	fd, pk := u.eng.findDecl(fn)
 	if fd == nil || fd.Body == nil || !u.eng.inlinable(fd) {
-		return false
+		return nil, false
 	}
 	sig := fn.Type().(*types.Signature)
 	if sig.Variadic() {
-		return false
+		return nil, false
 	}
 	var recv *Val
 	if sig.Recv() != nil {
 		se, ok := ast.Unparen(call.Fun).(*ast.SelectorExpr)
 		if !ok {
-			return false
+			return nil, false
 		}
 		sel, ok := u.info().Selections[se]
 		if !ok {
-			return false
+			return nil, false
 		}
 		base := u.eval(st, se.X)
 		idx := sel.Index()
@@ -512,27 +543,17 @@ func (u *Unit) tailInline(st *State, x *ast.ReturnStmt) bool {
 		args = append(args, v)
 	}
 	if len(args) != sig.Params().Len() {
-		return false
+		return nil, false
 	}
 	if _, done := u.builtinModel(st, call, fn, key, recv, args); done {
-		return false
+		return nil, false
 	}
 	u.note("inlined", key)
-	fr := u.topFrame()
 	oldPkg, oldFile := u.pkg, u.curFile
 	u.pkg = pk
 	rets := u.inlineBodyStates(st, fd.Type, fd.Body, fd.Recv, recv, args, sig)
 	u.pkg, u.curFile = oldPkg, oldFile
-	for _, r := range rets {
-		vals := r.vals
-		for i := range vals {
-			if i < fr.sig.Results().Len() {
-				vals[i] = u.coerce(r.st, vals[i], fr.sig.Results().At(i).Type())
-			}
-		}
-		u.finishReturn(r.st, vals)
-	}
-	return true
+	return rets, true
 }
 
 func (u *Unit) execReturn(st *State, x *ast.ReturnStmt) {
